@@ -132,7 +132,11 @@ NodeAt(tree, path) == IF path = <<>> THEN tree ELSE NodeAt(tree.c[Head(path)], T
 \* ---- control: Run ------------------------------------------------------------------------------
 Res(st, out, res, org, e) == [st |-> st, out |-> out, res |-> res, org |-> org, e |-> e]
 \* a new exception is raised in frame f (n: leaf execution number, 0 for other origins)
-NewErr(st, f, n) == [st EXCEPT !.eid = @ + 1, !.errs = Append(@, [org |-> f, n |-> n])]
+\* glom: the exception is a GlomError -- the only kind the branching specs (Coalesce, Or, Not, Switch, Match
+\* dicts) recover from; an alien exception (raised by user code, wrapped by glom() at the very end) is not
+NewErr(st, f, n) == [st EXCEPT !.eid = @ + 1, !.errs = Append(@, [org |-> f, n |-> n, glom |-> TRUE])]
+NewAlien(st, f, n) == [st EXCEPT !.eid = @ + 1, !.errs = Append(@, [org |-> f, n |-> n, glom |-> FALSE])]
+Caught(r) == r.out = "err" /\ r.st.errs[r.e].glom
 Log(st, rec) == [st EXCEPT !.log = Append(@, rec @@ [at |-> Len(st.acts)])]   \* at: actions taken so far
 
 RECURSIVE Run(_, _, _, _, _), RunChain(_, _, _, _, _, _, _), RunAll(_, _, _, _, _, _, _),
@@ -153,6 +157,7 @@ Run(st0, par, node, path, tgt) ==
                    o == IF n <= Len(st2.plan) THEN st2.plan[n] ELSE "ok"
                    st3 == [st2 EXCEPT !.leaf = n]
                IN IF o = "err" THEN Res(NewErr(st3, f, n), "err", tgt, f, st3.eid + 1)
+                  ELSE IF o = "alien" THEN Res(NewAlien(st3, f, n), "err", tgt, f, st3.eid + 1)
                   ELSE Res(st3, "ok", IF node.k = "same" THEN tgt ELSE <<n>>, 0, 0)   \* copy: a distinct object (equal to tgt)
           [] node.k \in {"fail", "smiss"} ->      \* a leaf that always raises (smiss: S.<missing name>)
                Res(NewErr(st2, f, 0), "err", tgt, f, st2.eid + 1)
@@ -249,7 +254,8 @@ Run(st0, par, node, path, tgt) ==
           [] node.k = "and" -> RunAnd(st2, f, node, path, 1, tgt, tgt)
           [] node.k = "not" ->
                LET rc == Run(st2, f, node.c[1], Append(path, 1), tgt) IN
-               IF rc.out = "err" THEN Res(rc.st, "ok", tgt, 0, 0)
+               IF Caught(rc) THEN Res(rc.st, "ok", tgt, 0, 0)
+               ELSE IF rc.out = "err" THEN rc
                ELSE Res(NewErr(rc.st, f, 0), "err", tgt, f, rc.st.eid + 1)
           [] node.k = "switch" -> RunSwitch(st2, f, node, path, 1, tgt)
           [] node.k = "mdict2" ->
@@ -267,8 +273,9 @@ Run(st0, par, node, path, tgt) ==
                    d == Len(st3.frames)
                    rk == Run(st3, d, node.c[1], Append(path, 1), <<-3, 1>>)
                    inner ==
-                     IF rk.out = "err"
+                     IF Caught(rk)
                      THEN Res(NewErr(rk.st, d, 0), "err", tgt, d, rk.st.eid + 1)        \* key didn't match any
+                     ELSE IF rk.out = "err" THEN rk
                      ELSE LET ch == Chain(rk.st, d)
                               rv == Run(ch.st, ch.s, node.c[2], Append(path, 2), tgt)
                           IN IF rv.out = "err" THEN rv
@@ -316,7 +323,7 @@ RunGen(st, c, g, j) ==
 RunCoal(st, f, node, path, i, tgt) ==
   IF i > Len(node.c) THEN Res(NewErr(st, f, 0), "err", tgt, f, st.eid + 1)
   ELSE LET r == Run(st, f, node.c[i], Append(path, i), tgt)
-       IN IF r.out = "ok" THEN r ELSE RunCoal(r.st, f, node, path, i + 1, tgt)
+       IN IF r.out = "ok" \/ ~Caught(r) THEN r ELSE RunCoal(r.st, f, node, path, i + 1, tgt)
 
 RunGroup(st, f, node, path, j, tgt, last) ==
   IF j > Len(ItemsOf(st, tgt)) THEN Res(st, "ok", last, 0, 0)
@@ -328,7 +335,8 @@ RunGroup(st, f, node, path, j, tgt, last) ==
 RunMd2(st, d, node, path, e, tgt, keys) ==
   IF e > 2 THEN Res([st EXCEPT !.conts = Append(@, [f |-> d, items |-> keys])], "ok", <<-4, d>>, 0, 0)
   ELSE LET rk == Run(st, d, node.c[1], Append(path, 1), <<-3, e>>)
-       IN IF rk.out = "err" THEN Res(NewErr(rk.st, d, 0), "err", tgt, d, rk.st.eid + 1)      \* key didn't match any
+       IN IF Caught(rk) THEN Res(NewErr(rk.st, d, 0), "err", tgt, d, rk.st.eid + 1)      \* key didn't match any
+          ELSE IF rk.out = "err" THEN rk
           ELSE LET ch == Chain(rk.st, d)
                    rv == Run(ch.st, ch.s, node.c[2], Append(path, 2), tgt)
                IN IF rv.out = "err" THEN rv ELSE RunMd2(rv.st, d, node, path, e + 1, tgt, Append(keys, rk.res))
@@ -338,12 +346,12 @@ RunMd2(st, d, node, path, e, tgt, keys) ==
 RunCoalSkip(st, f, node, path, i, tgt) ==
   IF i > Len(node.c) THEN Res(NewErr(st, f, 0), "err", tgt, f, st.eid + 1)
   ELSE LET r == Run(st, f, node.c[i], Append(path, i), tgt)
-       IN RunCoalSkip(r.st, f, node, path, i + 1, tgt)
+       IN IF r.out = "err" /\ ~Caught(r) THEN r ELSE RunCoalSkip(r.st, f, node, path, i + 1, tgt)
 
 \* Or: all but the last child guarded; the last child's error propagates as it is
 RunOr(st, f, node, path, i, tgt) ==
   LET r == Run(st, f, node.c[i], Append(path, i), tgt)
-  IN IF r.out = "ok" \/ i = Len(node.c) THEN r ELSE RunOr(r.st, f, node, path, i + 1, tgt)
+  IN IF r.out = "ok" \/ i = Len(node.c) \/ ~Caught(r) THEN r ELSE RunOr(r.st, f, node, path, i + 1, tgt)
 
 \* And: every child on the same target, the last result is returned
 RunAnd(st, f, node, path, i, tgt, last) ==
@@ -355,7 +363,8 @@ RunAnd(st, f, node, path, i, tgt, last) ==
 RunSwitch(st, f, node, path, i, tgt) ==
   IF 2 * i > Len(node.c) THEN Res(NewErr(st, f, 0), "err", tgt, f, st.eid + 1)       \* no matches
   ELSE LET rk == Run(st, f, node.c[2 * i - 1], Append(path, 2 * i - 1), tgt)
-       IN IF rk.out = "err" THEN RunSwitch(rk.st, f, node, path, i + 1, tgt)
+       IN IF Caught(rk) THEN RunSwitch(rk.st, f, node, path, i + 1, tgt)
+          ELSE IF rk.out = "err" THEN rk
           ELSE LET ch == Chain(rk.st, f)
                IN Run(ch.st, ch.s, node.c[2 * i], Append(path, 2 * i), tgt)
 
